@@ -141,6 +141,8 @@ func basePath(node string) []sElem {
 		return nil
 	case "container":
 		return []sElem{e("plain")}
+	case "container2":
+		return []sElem{e("sys")}
 	case "presence":
 		return []sElem{e("sys"), e("svc")}
 	case "list":
@@ -303,6 +305,10 @@ func repoFrames() string {
 	return strings.Join(out, " < ")
 }
 
+// memberNames: the member names of the verification schema (every node kind occurs)
+var memberNames = []string{"item", "pair", "triple", "plain", "sys", "types", "ch", "conc", "host", "hostname", "desc", "primary", "guard", "tags", "uptime", "feat", "svc", "level", "id",
+	"a", "ab", "n", "sub", "s", "name", "val", "mode", "oper", "tcp-port", "zone", "app", "weight", "alpha", "beta", "x", "e", "u8", "i64", "d2", "b", "en", "idr", "un", "str", "bin", "bits", "ll-u8", "ll-str", "ext", "xc"}
+
 func deepJSON(n int) string {
 	return strings.Repeat(`{"a":`, n) + "1" + strings.Repeat("}", n)
 }
@@ -342,6 +348,36 @@ func jsonDoc(kind string) (string, bool) {
 		return `123456789012345678901234567890`, true
 	case "json_float_for_int":
 		return `1.5`, true
+	}
+	// "member:<name>:<kind>": a document with ONE member, whose value is of the given JSON kind - whatever node kind
+	// (container, presence container, list, leaf, leaf-list) the member is at the addressed node, it meets every JSON kind.
+	// (one member per document: the order in which the members of a JSON object are processed is random)
+	if strings.HasPrefix(kind, "member:") {
+		parts := strings.SplitN(kind, ":", 3)
+		var v string
+		switch parts[2] {
+		case "null":
+			v = "null"
+		case "num":
+			v = "5"
+		case "bool":
+			v = "true"
+		case "str":
+			v = `"s"`
+		case "arr_empty":
+			v = "[]"
+		case "arr":
+			v = "[1]"
+		case "arr_null":
+			v = "[null]"
+		case "arr_nested":
+			v = "[[1], {}]"
+		case "obj_empty":
+			v = "{}"
+		default:
+			v = `{"x": 1}`
+		}
+		return `{"` + parts[1] + `":` + v + `}`, true
 	}
 	return "", false
 }
@@ -564,9 +600,6 @@ func (r *ShapeRunner) Run(b *ShapeBatch) error {
 		entry, node, pshape, kshape, vkind := s[0], s[1], s[2], s[3], s[4]
 		bent, origin := bend(basePath(node), pshape, kshape)
 		path := toPath(bent, origin)
-		type res struct {
-			outcome, detail string
-		}
 		done := make(chan res, 1)
 		t0 := time.Now()
 		go func() {
@@ -577,113 +610,21 @@ func (r *ShapeRunner) Run(b *ShapeBatch) error {
 			}()
 			cctx, cancel := context.WithTimeout(ctx, 8*time.Second)
 			defer cancel()
-			errOut := func(err error) res {
-				if err != nil {
-					return res{"error", err.Error()}
+			kinds := []string{vkind}
+			if strings.HasPrefix(vkind, "members_") {
+				kinds = kinds[:0]
+				for _, n := range memberNames {
+					kinds = append(kinds, "member:"+n+":"+strings.TrimPrefix(vkind, "members_"))
 				}
-				return res{"response", ""}
 			}
-			switch entry {
-			case "set_dry", "set_apply":
-				req := &sdcpb.TransactionIntent{Intent: "s", Priority: 10, Update: []*sdcpb.Update{{Path: path, Value: valueOf(vkind)}}}
-				ti, err := ds.D.SdcpbTransactionIntentToInternalTI(cctx, req)
-				if err != nil {
-					done <- errOut(err)
-					return
+			var last res
+			for k, vk := range kinds {
+				last = r.callShape(cctx, ctx, ds, scb, syncIn, &sentinel, b.ID, i*1000+k, entry, path, bent, vk)
+				if last.outcome != "response" && last.outcome != "error" {
+					break
 				}
-				id := fmt.Sprintf("%s-%d", b.ID, i)
-				resp, err := ds.D.TransactionSet(cctx, id, []*types.TransactionIntent{ti}, nil, 30*time.Second, entry == "set_dry")
-				if err != nil {
-					done <- errOut(err)
-					return
-				}
-				if entry == "set_apply" && !hasErrors(resp) {
-					// restore the empty datastore
-					if err := ds.D.TransactionCancel(cctx, id); err != nil {
-						done <- res{"error", "cancel: " + err.Error()}
-						return
-					}
-				}
-				done <- res{"response", ""}
-			case "get":
-				var firstErr error
-				for _, which := range []sdcpb.Type{sdcpb.Type_MAIN, sdcpb.Type_INTENDED} {
-					for _, enc := range []sdcpb.Encoding{sdcpb.Encoding_STRING, sdcpb.Encoding_PROTO, sdcpb.Encoding_JSON, sdcpb.Encoding_JSON_IETF} {
-						req := &sdcpb.GetDataRequest{Name: ds.Name, Datastore: &sdcpb.DataStore{Type: which}, DataType: sdcpb.DataType_ALL, Encoding: enc, Path: []*sdcpb.Path{path}}
-						nCh := make(chan *sdcpb.GetDataResponse)
-						errCh := make(chan error, 1)
-						go func() {
-							defer func() {
-								if x := recover(); x != nil {
-									errCh <- fmt.Errorf("PANIC: %v", x)
-									close(nCh)
-								}
-							}()
-							errCh <- ds.D.Get(cctx, req, nCh)
-						}()
-						for range nCh {
-						}
-						if err := <-errCh; err != nil {
-							if strings.HasPrefix(err.Error(), "PANIC: ") {
-								done <- res{"panic", err.Error()}
-								return
-							}
-							if firstErr == nil {
-								firstErr = err
-							}
-						}
-					}
-				}
-				done <- errOut(firstErr)
-			case "sync":
-				n := &sdcpb.Notification{Timestamp: time.Now().UnixNano(), Update: []*sdcpb.Update{{Path: path, Value: valueOf(vkind)}}}
-				select {
-				case syncIn <- &target.SyncUpdate{Update: n}:
-				case <-cctx.Done():
-					done <- res{"hang", "the sync loop does not take the notification"}
-					return
-				}
-				// a second, well-formed notification: the writer is sequential, so once it is stored the first one was handled
-				mark := sentinel.Add(1)
-				sn := &sdcpb.Notification{Timestamp: time.Now().UnixNano(), Update: []*sdcpb.Update{{
-					Path:  &sdcpb.Path{Elem: []*sdcpb.PathElem{{Name: "plain"}, {Name: "sub"}, {Name: "s"}}},
-					Value: &sdcpb.TypedValue{Value: &sdcpb.TypedValue_StringVal{StringVal: fmt.Sprintf("m%d", mark)}}}}}
-				select {
-				case syncIn <- &target.SyncUpdate{Update: sn}:
-				case <-cctx.Done():
-					done <- res{"hang", "the sync loop does not take the sentinel"}
-					return
-				}
-				want := fmt.Sprintf("s:m%d", mark)
-				for cctx.Err() == nil {
-					for _, lv := range ds.ReadStore(ctx, cachepb.Store_CONFIG) {
-						if lv.Leaf == "pl.s" && lv.Datum == want {
-							done <- res{"response", ""}
-							return
-						}
-					}
-					time.Sleep(2 * time.Millisecond)
-				}
-				done <- res{"hang", "the sentinel notification was never stored"}
-			case "xml":
-				_, err := netconf.NewXML2sdcpbConfigAdapter(scb).Transform(cctx, xmlDoc(bent, vkind))
-				done <- errOut(err)
-			case "import_json", "import_xml":
-				tc := tree.NewTreeContext(tree.NewTreeCacheClient(ds.Name, r.W.Cache), scb, ds.Name)
-				root, err := tree.NewTreeRoot(cctx, tc)
-				if err != nil {
-					done <- errOut(err)
-					return
-				}
-				if entry == "import_json" {
-					err = root.ImportConfig(cctx, jsonimp.NewJsonTreeImporter(jsonConfig(bent, vkind)), "imp", 10)
-				} else {
-					err = root.ImportConfig(cctx, xmlimp.NewXmlTreeImporter(xmlDoc(bent, vkind).Root()), "imp", 10)
-				}
-				done <- errOut(err)
-			default:
-				done <- res{"error", "unknown entry"}
 			}
+			done <- last
 		}()
 		select {
 		case x := <-done:
@@ -705,4 +646,113 @@ func (r *ShapeRunner) Run(b *ShapeBatch) error {
 	}
 	r.N++
 	return nil
+}
+
+type res struct {
+	outcome, detail string
+}
+
+// callShape sends one instantiated shape through its entry point
+func (r *ShapeRunner) callShape(cctx, ctx context.Context, ds *env.DS, scb *schemaClient.SchemaClientBoundImpl, syncIn chan *target.SyncUpdate, sentinel *atomic.Int64,
+	bid string, i int, entry string, path *sdcpb.Path, bent []sElem, vkind string) res {
+	errOut := func(err error) res {
+		if err != nil {
+			return res{"error", err.Error()}
+		}
+		return res{"response", ""}
+	}
+	switch entry {
+	case "set_dry", "set_apply":
+		req := &sdcpb.TransactionIntent{Intent: "s", Priority: 10, Update: []*sdcpb.Update{{Path: path, Value: valueOf(vkind)}}}
+		ti, err := ds.D.SdcpbTransactionIntentToInternalTI(cctx, req)
+		if err != nil {
+			return errOut(err)
+		}
+		id := fmt.Sprintf("%s-%d", bid, i)
+		resp, err := ds.D.TransactionSet(cctx, id, []*types.TransactionIntent{ti}, nil, 30*time.Second, entry == "set_dry")
+		if err != nil {
+			return errOut(err)
+		}
+		if entry == "set_apply" && !hasErrors(resp) {
+			// restore the empty datastore
+			if err := ds.D.TransactionCancel(cctx, id); err != nil {
+				return res{"error", "cancel: " + err.Error()}
+			}
+		}
+		return res{"response", ""}
+	case "get":
+		var firstErr error
+		for _, which := range []sdcpb.Type{sdcpb.Type_MAIN, sdcpb.Type_INTENDED} {
+			for _, enc := range []sdcpb.Encoding{sdcpb.Encoding_STRING, sdcpb.Encoding_PROTO, sdcpb.Encoding_JSON, sdcpb.Encoding_JSON_IETF} {
+				req := &sdcpb.GetDataRequest{Name: ds.Name, Datastore: &sdcpb.DataStore{Type: which}, DataType: sdcpb.DataType_ALL, Encoding: enc, Path: []*sdcpb.Path{path}}
+				nCh := make(chan *sdcpb.GetDataResponse)
+				errCh := make(chan error, 1)
+				go func() {
+					defer func() {
+						if x := recover(); x != nil {
+							errCh <- fmt.Errorf("PANIC: %v", x)
+							close(nCh)
+						}
+					}()
+					errCh <- ds.D.Get(cctx, req, nCh)
+				}()
+				for range nCh {
+				}
+				if err := <-errCh; err != nil {
+					if strings.HasPrefix(err.Error(), "PANIC: ") {
+						return res{"panic", err.Error()}
+					}
+					if firstErr == nil {
+						firstErr = err
+					}
+				}
+			}
+		}
+		return errOut(firstErr)
+	case "sync":
+		n := &sdcpb.Notification{Timestamp: time.Now().UnixNano(), Update: []*sdcpb.Update{{Path: path, Value: valueOf(vkind)}}}
+		select {
+		case syncIn <- &target.SyncUpdate{Update: n}:
+		case <-cctx.Done():
+			return res{"hang", "the sync loop does not take the notification"}
+		}
+		// a second, well-formed notification: the writer is sequential, so once it is stored the first one was handled
+		mark := sentinel.Add(1)
+		sn := &sdcpb.Notification{Timestamp: time.Now().UnixNano(), Update: []*sdcpb.Update{{
+			Path:  &sdcpb.Path{Elem: []*sdcpb.PathElem{{Name: "plain"}, {Name: "sub"}, {Name: "s"}}},
+			Value: &sdcpb.TypedValue{Value: &sdcpb.TypedValue_StringVal{StringVal: fmt.Sprintf("m%d", mark)}}}}}
+		select {
+		case syncIn <- &target.SyncUpdate{Update: sn}:
+		case <-cctx.Done():
+			return res{"hang", "the sync loop does not take the sentinel"}
+		}
+		want := fmt.Sprintf("s:m%d", mark)
+		for cctx.Err() == nil {
+			for _, lv := range ds.ReadStore(ctx, cachepb.Store_CONFIG) {
+				if lv.Leaf == "pl.s" && lv.Datum == want {
+					return res{"response", ""}
+				}
+			}
+			time.Sleep(2 * time.Millisecond)
+		}
+		return res{"hang", "the sentinel notification was never stored"}
+	case "xml":
+		_, err := netconf.NewXML2sdcpbConfigAdapter(scb).Transform(cctx, xmlDoc(bent, vkind))
+		return errOut(err)
+	case "import_json", "import_xml":
+		tc := tree.NewTreeContext(tree.NewTreeCacheClient(ds.Name, r.W.Cache), scb, ds.Name)
+		root, err := tree.NewTreeRoot(cctx, tc)
+		if err != nil {
+			return errOut(err)
+		}
+		if entry == "import_json" {
+			err = root.ImportConfig(cctx, jsonimp.NewJsonTreeImporter(jsonConfig(bent, vkind)), "imp", 10)
+		} else {
+			err = root.ImportConfig(cctx, xmlimp.NewXmlTreeImporter(xmlDoc(bent, vkind).Root()), "imp", 10)
+		}
+		return errOut(err)
+	default:
+		return res{"error", "unknown entry"}
+	}
+	return res{"error", "unknown entry"}
 }
